@@ -154,7 +154,15 @@ def lambda_params(fn):
         lam = fn.nodes[fn.strip(args[2], 'all')]
         if lam['k'] != 'LambdaExpr':
             continue
-        if not (b['k'] == 'CXXMemberCallExpr' and b['callee']['name'] in ('begin', 'cbegin') and e['k'] == 'CXXMemberCallExpr' and e['callee']['name'] in ('end', 'cend')):
+        count = None
+        if b['k'] == 'CXXMemberCallExpr' and b['callee']['name'] in ('begin', 'cbegin') and e['k'] == 'CXXOperatorCallExpr' and e.get('op') == '+' and len(e.get('args', [])) == 2:
+            # [X.begin(), X.begin() + K)
+            e0 = fn.nodes[fn.strip(e['args'][0], 'all')]
+            if e0['k'] == 'CXXMemberCallExpr' and e0['callee']['name'] in ('begin', 'cbegin') and e0.get('obj') is not None:
+                count = e['args'][1]
+                e = e0
+        if not (b['k'] == 'CXXMemberCallExpr' and b['callee']['name'] in ('begin', 'cbegin') and e['k'] == 'CXXMemberCallExpr' and
+                (e['callee']['name'] in ('end', 'cend') or count is not None)):
             continue
         if b.get('obj') is None or e.get('obj') is None:
             continue
@@ -167,7 +175,7 @@ def lambda_params(fn):
         if len(ids) != 1 or len(body) != 1:
             continue
         (did, d), = ids.items()
-        c[did] = (b['obj'], d['name'], n['id'], lam['id'], body[0], e['obj'], bool(d.get('isref')))
+        c[did] = (b['obj'], d['name'], n['id'], lam['id'], body[0], e['obj'], bool(d.get('isref')), count)
     fn._lambda_params = c
     return c
 
